@@ -1,6 +1,6 @@
 """C08 - thread safety.  Stateless model checking of the real library under a
 cooperative scheduler that owns every hooked synchronisation point (engine
-xsched): all interleavings of 2-3 threads up to a preemption bound for four
+xsched): all interleavings of 2-3 threads up to a preemption bound for five
 scenarios, every schedule a fresh process; end state must equal the sequential
 run (as-if-serialised).  A free-running ThreadSanitizer pass over the same
 scenario bodies complements it for unsynchronised accesses."""
@@ -12,7 +12,7 @@ import time
 
 import vlib
 
-SCEN = ["init", "once", "codemem", "run"]
+SCEN = ["init", "once", "codemem", "run", "emulate"]
 
 
 def run(ctx):
